@@ -100,6 +100,11 @@ func GenPalette(g G, allowIface bool, allowSub bool) Palette {
 	p.Types = append(p.Types, perm[:nt]...)
 	if allowIface && g.Pct(35) {
 		p.Types = append(p.Types, TypeI0+g.Int(0, 1))
+		if g.Pct(30) {
+			// related interfaces: I2 is wider than I0
+			p.Types[len(p.Types)-1] = TypeI0
+			p.Types = append(p.Types, TypeI2)
+		}
 		// make sure at least one implementer is around
 		impl := Implementers(p.Types[len(p.Types)-1])
 		p.Types = append(p.Types, Pick(g, impl))
@@ -345,6 +350,21 @@ func CompatSource(g G, pal Palette, p Label) Label {
 			l.Sub = otherSub()
 		}
 		l.Dyn = l.Type
+		if !pal.NoSub && g.Pct(35) {
+			// an interface-kind source: the same interface under another
+			// subtype, or (for I0) the wider interface I2 -- reachable only
+			// through an interface-to-interface link; such a label can only
+			// be a converter output (Produce turns it into an implementer
+			// when it supplies it directly)
+			l = Label{Type: p.Type, Sub: otherSub()}
+			if p.Type == TypeI0 && g.Bool() {
+				l = Label{Type: TypeI2}
+				if g.Bool() {
+					l.Sub = otherSub()
+				}
+			}
+			l.Dyn = l.Type
+		}
 	}
 	return l
 }
@@ -400,6 +420,10 @@ func (b *Builder) Produce(p Label, depth int, maxConvIn int) {
 		return
 	}
 	src := CompatSource(g, b.Pal, p)
+	if IsIface(src.Type) && g.Pct(50) {
+		// keep the interface-kind output as the only producer (no extras below)
+		src.Name = ""
+	}
 	fs := FuncSpec{ID: b.NewID()}
 	if b.Opts.AllowBuilt && !b.Pal.Hostile && g.Pct(12) {
 		fs.Built, fs.InForm, fs.OutForm, fs.HasErr = true, FormStruct, FormStruct, true
@@ -695,6 +719,15 @@ func GenNasty(g G) *Scenario {
 // perturbed (the analysis decides afterwards whether it really is underivable).
 func GenUnderivable(g G, o GenFuncOpts) *Scenario {
 	sc := GenDerivable(g, o, true, true, 3, 3)
+	if g.Pct(35) {
+		// the complete inputs are given to an earlier call of the same Func
+		// (created with a default option); the call under test gets the cut set
+		sc.PriorInputs = append([]Input(nil), sc.Inputs...)
+		sc.TargetDefault = g.Pct(70)
+		for i := range sc.Convs {
+			sc.Convs[i].Once = false // memoized results legitimately outlive a call
+		}
+	}
 	pal := Palette{Names: AllNames[:2], Subs: AllSubs, SubP: 50, NameP: 50}
 	cuts := g.Int(1, 2)
 	for k := 0; k < cuts; k++ {
